@@ -59,9 +59,10 @@ TEXT = {
 
 RETAINED = {'C01', 'C02', 'C03', 'C05', 'C06', 'C07', 'C08', 'C09', 'C10', 'C11', 'C12', 'C13', 'C14', 'C17', 'C19'}
 RETAIN_T = '; result-retention monitor (what a call returned is re-read after the following calls, and scribbled on when dropped)'
-RETAIN_X = ' Results handed out by earlier calls are kept and compared again after the calls of the following case (process-wide buffers, aliasing); the same data is presented in varying memory layouts, storage modes, atom orders and species / label spellings.'
+RETAIN_X = ' Results handed out by earlier calls are kept and compared again after the calls of the following case (process-wide buffers, aliasing) and examined for buffers shared between arrays of different role; the same data is presented in varying memory layouts, storage modes, atom orders and species / label spellings.'
+GEN_X = ' Every third worker process runs under python -O and every worker under its own string hash seed (interpreter configuration is part of the workload).'
 CLAIMED = {
-    pid: dict(level='exploration', technique=t + (RETAIN_T if pid in RETAINED else ''), text=x + (RETAIN_X if pid in RETAINED else ''), design=f'DESIGN.md §2 {pid}')
+    pid: dict(level='exploration', technique=t + (RETAIN_T if pid in RETAINED else ''), text=x + (RETAIN_X if pid in RETAINED else '') + GEN_X, design=f'DESIGN.md §2 {pid}')
     for pid, (t, x) in TEXT.items()
 }
 CLAIMED['C16'] = dict(
